@@ -430,6 +430,8 @@ pub struct ScriptedSub {
     pub gate_all: bool,
     /// where-code for get_state reads made inside on_notify (0 = do not read)
     pub read_wh: u32,
+    /// bumped after every on_notify (lets a controller wait for notifications without polling)
+    pub counter: Option<Arc<Counter>>,
 }
 
 impl Subscriber<St, Act> for ScriptedSub {
@@ -445,6 +447,9 @@ impl Subscriber<St, Act> for ScriptedSub {
             c.read(store, self.read_wh);
         }
         c.ev(K::SEnd, store, act.id, self.id, st.digest(), st.steps, 0);
+        if let Some(cn) = &self.counter {
+            cn.add(1);
+        }
     }
     fn on_unsubscribe(&self) {
         let store = if self.store == 255 { 0 } else { self.store };
